@@ -28,6 +28,19 @@ class Filter(base.Filter):
             token = dict(token, name=None)
         return token
 
+    def closes_unsuitable_parent(self, next):
+        """"No more content in the parent element" only lets an end tag go
+        if a parser closes the element when it meets the parent's end tag.
+        It does not for a foreign parent (the end tag is matched against
+        foreign elements only) nor for a formatting element (the adoption
+        agency algorithm leaves the child open); neither occurs in a
+        conforming document."""
+        return (next is not None and next["type"] == "EndTag" and
+                (not self.is_html(next) or
+                 next["name"] in ("a", "b", "big", "code", "em", "font", "i",
+                                  "nobr", "s", "small", "strike", "strong",
+                                  "tt", "u")))
+
     def __iter__(self):
         for previous, token, next in self.slider():
             type = token["type"]
@@ -39,6 +52,7 @@ class Filter(base.Filter):
                     yield token
             elif type == "EndTag":
                 if (not self.is_html(token) or
+                        self.closes_unsuitable_parent(next) or
                         not self.is_optional_end(token["name"],
                                                  self.html_neighbour(next))):
                     yield token
